@@ -1,4 +1,5 @@
-from . import p_framing
+from . import p_framing, p_status
 REGISTRY = {
     'C01': p_framing, 'C03': p_framing, 'C06': p_framing, 'C07': p_framing,
+    'C04': p_status,
 }
